@@ -53,6 +53,18 @@ fn draw_sources(rng: &mut Rng, c: &Corpus, n: usize, round: u64) -> Vec<Source> 
             out.push(Source { module: sanitize(&e.id), text: e.text.clone(), origin: json!({"entry": e.id}) });
         }
     }
+    // ... and so is a pair "description, then the same declarations with other size properties": the
+    // macro expansions of one rustc process are a history of generator calls in one process, which
+    // pdlc (one description per process) never has
+    let mut n = n;
+    if round == 0 {
+        if let Some(e) = c.entries.iter().find(|e| e.id == "hand_tails") {
+            out.push(Source { module: sanitize(&e.id), text: e.text.clone(), origin: json!({"entry": e.id}) });
+            let s = Sibling::FixArrays(u64::MAX);
+            out.push(Source { module: format!("{}_sibfix", sanitize(&e.id)), text: s.apply(&e.text), origin: json!({"entry": e.id, "sibling": s.to_json()}) });
+            n += 2;
+        }
+    }
     let mut guard = 0;
     while out.len() < n && guard < 100 {
         guard += 1;
@@ -112,7 +124,11 @@ fn write_gen(paths: &Paths, gen: &Path, sources: &[Source], rng: &mut Rng, hash_
         };
         items.push(format!("#[pdl_derive::pdl(\"{}\")]\npub mod drvf_{} {{}}\n", file_path.display(), s.module));
     }
-    rng.shuffle(&mut items);
+    // (a function of the recorded hash seed alone, so that a replay expands in the same order)
+    let _ = rng;
+    Rng::new(hash_seed ^ 0x6f72_6465_72).shuffle(&mut items);
+    // (stable) the targeted pair keeps its order: the description first, its sibling after it
+    items.sort_by_key(|it| if it.contains("_hand_tails {") { 0 } else if it.contains("_hand_tails_sibfix {") { 1 } else { 2 });
     let mut text = format!("// tier D round; hash seed of the rustc process: {hash_seed}\n");
     for it in items {
         text.push_str(&it);
@@ -257,7 +273,8 @@ pub fn run_tier(paths: &Paths, c: &Corpus, seed: u64, rounds: u64, sources_per_r
                 let doc = json!({
                     "property": "C11", "tier": "D", "seed": seed, "run": round,
                     "hash_seed_of_rustc": hash_seed.to_string(),
-                    "sources": sources.iter().filter(|s| s.module == module).map(|s| json!({"module": s.module, "origin": s.origin, "text": s.text})).collect::<Vec<_>>(),
+                    // all sources of the round, in order: the expansions before the diverging module are its history
+                    "sources": sources.iter().map(|s| json!({"module": s.module, "origin": s.origin, "text": s.text})).collect::<Vec<_>>(),
                     "types": v["types"], "seed_values": v["seed_values"], "events": v["events"],
                     "violation": {"invariant": "I6", "module": module, "variant": v["variant"], "event": v["event"], "detail": v["detail"]},
                     "replay": format!("bin/check C11 --replay {}", path.display()),
